@@ -96,16 +96,33 @@ def reach_rows(la: int, lb: int, lk: int) -> bool:
 BLK = "x = G + 1\nL = x(k-1)\nd = x + L\nexogenous\nG = SYM_G"
 
 
+# lines the parser accepts (or reports) that define no variable of the system: the table must still be exactly the system's variables x horizon+1 rows
+EXTRA = ('', 'w(0) = 3.', 'x (0) = 1.', 'oops no equals', 'a = b = c', 'Err_Tolerance = 1e-5', '# w = 4', 'G(0) = 5.', 'L(0) = 2.')
+
+
+def check_rows_after_solve_extra_line(T: int, reduce: bool, extra: int) -> bool:
+    """
+    pre: 0 <= T <= 2
+    pre: 1 <= extra <= 8
+    post: _
+    """
+    return _rows_after_solve(T, T + 1, reduce, extra)
+
+
 def check_rows_after_solve(T: int, n: int, reduce: bool) -> bool:
     """
     pre: 0 <= T <= 3
     pre: 0 <= n <= 5
     post: _
     """
+    return _rows_after_solve(T, n, reduce, 0)
+
+
+def _rows_after_solve(T, n, reduce, extra):
     ES.SYM_G = [float(i) for i in range(n)]
     es = EquationSolver(run_equation_reduction=reduce)
     es.MaxTime = T
-    es.ParseString(BLK)
+    es.ParseString(BLK.replace('exogenous', EXTRA[extra] + chr(10) + 'exogenous'))
     try:
         es.SolveEquation()
     except ValueError:
